@@ -148,6 +148,17 @@ def bisect (f : α → α) (a b xtol rtol : α) (maxiter : Int) (disp : Bool) : 
       if rs.2 then finish disp ⟨rs.1, 2, 0, true⟩
       else finish disp (bisectLoop f xtol rtol fa maxiter.toNat 0 a (b - a) 2)
 
+/-- repeated halving: `some (k0 + j)` for the least `j` in `1..fuel` with `|d·(1/2)^j| < xtol`
+    (`d` is the current width, already halved `k0` times), `none` if there is none -/
+def halvingsAux (xtol : α) : Nat → α → Nat → Option Nat
+  | 0, _, _ => none
+  | fuel + 1, d, k =>
+    let d' := d * half
+    if absv d' < xtol then some (k + 1) else halvingsAux xtol fuel d' (k + 1)
+
+/-- the iteration bound of `bisect`: the least `k` in `1..cap` with `|b−a|/2^k < xtol` -/
+def bisectK (a b xtol : α) (cap : Nat) : Option Nat := halvingsAux xtol cap (b - a) 0
+
 /-! ### brentq (root_finding.py 416-497) -/
 
 structure BQ (α : Type) where
@@ -612,6 +623,13 @@ def handleSc (sc : Sc α) (toks : List String) : String :=
     | some f, some a, some b, some xtol, some rtol, some mi, some d =>
       showOut sc (bisect (evalRPN f) a b xtol rtol mi d)
     | _, _, _, _, _, _, _ => "bad-op"
+  | "bisectk" :: r =>
+    match kvNum sc r "a", kvNum sc r "b", kvNum sc r "xtol", kvNat r "cap" with
+    | some a, some b, some xtol, some cap =>
+      match bisectK a b xtol cap with
+      | some k => toString k
+      | none => "none"
+    | _, _, _, _ => "bad-op"
   | "brentq" :: r =>
     match kvProg sc r "f", kvNum sc r "a", kvNum sc r "b", kvNum sc r "xtol", kvNum sc r "rtol",
           kvInt r "maxiter", kvBool r "disp" with
